@@ -309,7 +309,7 @@ class Gen:
                 env[inv[p['name']]] = mv(p['default'])
         # premises built from other rules first (they fix schema variables)
         malformed_slot = None
-        if thunks and level == 0 and rng.random() < 0.06:
+        if thunks and level == 0 and rng.random() < (0.4 if m.get('spec') == 'primitive' else 0.06):
             malformed_slot = rng.randrange(len(thunks))
         for i, t in enumerate(thunks):
             if sch is None or i == malformed_slot:
@@ -575,7 +575,7 @@ def run(tier, seed):
         if f.startswith(CID + '_violation_') and f.endswith('.json'):
             os.remove(os.path.join(C.OUT, f))
     rng = C.rng_for(seed, CID)
-    per_method = 32 if tier == 'quick' else 500
+    per_method = 32 if tier == 'quick' else 800
     t0 = time.time()
 
     # 1. translate + proof stage
@@ -721,10 +721,10 @@ def run(tier, seed):
             extra['discharged'] = good
             m2 = re.search(r'Lemma (\w+)', '\n'.join(open(os.path.join(C.COQ, f_bad)).read().split('\n')[max(0, ln - 3):ln]))
             extra['first_failing_lemma'] = m2.group(1) if m2 else None
-    extra.update(methods_translated=len(idx['methods']) if idx else 0,
+    extra.update(methods_translated=len([m for m in idx['methods'] if m['spec'] != 'primitive']) if idx else 0,
                  methods_excluded_algorithmic=idx['excluded'] if idx else None,
                  methods_without_statement=idx['unspecified'] if idx else None,
-                 method_source_sha256_16={m['name']: m['sha'] for m in idx['methods']} if idx else None,
+                 method_source_sha256_16={m['name']: m['sha'] for m in idx['methods'] if m['sha']} if idx else None,
                  translation_aborted=abort, mismatches=len(mismatches), oracle_problems=len(problems),
                  gen_wall_s=round(time.time() - t0, 1))
     if translation_aborted:
